@@ -89,7 +89,8 @@ theorem read_refines {stub nonce size enc : Bytes} {x : XorFile} (hL : Layout st
 
 /-! ### histories -/
 
-/-- Refinement (full strength): for every history of `seek` (SET/CUR/END), `read(n)` (all `n`) and `tell` whose
+/-- Refinement for histories without negative seek targets (kept as a corollary-style statement that also covers a plain
+OS file `k`; the unrestricted statement is `history_refines_all_seeks` below): for every history of `seek` (SET/CUR/END), `read(n)` (all `n`) and `tell` whose
 seeks land at logical positions `≥ 0` — including beyond the end — the view produces exactly the outputs of an
 ordinary file (BytesIO or OS file, `k`) over the decoded bytes — `seek` returning the raw offset, i.e. the logical one
 shifted by `nonce_offset + 8` — and ends in the state that abstracts to the plain file's state. -/
